@@ -372,10 +372,12 @@ def corr_C20(ctx):
             lines.append(gen.H("PTFR", ["unpack " + hexb(_flip3(b, 1, rng.choice(pat4()))), "obs"], (L,)))
     return lines
 
+_PAYLOAD = bytes((i * 7 + 3) & 0xFF for i in range(2048))
+
 def check_ptdp_robust(args):
     """PTDP.unpack of a PTDP whose two header words carry <= 3 bit errors each == unpack of the clean one"""
     n, fr, co, e1, e2 = args["len"], args["fragment"], args["content"], args["e1"], args["e2"]
-    payload = bytes((i * 7 + 3) & 0xFF for i in range(n))
+    payload = _PAYLOAD[:n]
     p = ch7.PTDP()
     p.fragment, p.content, p.payload = fr, co, payload
     clean = p.pack() + b"\xAA\xBB"
@@ -424,11 +426,12 @@ def oracles_C20(ctx, hints):
     fails = []
     n = 0
     ptdps, ptfrs = _c20_cases(ctx)
-    if ctx.tier == "thorough":
+    base = len(ptdps)
+    if ctx.tier == "thorough":          # all patterns x all 2049 lengths, on the length word
         ptdps += [(k, rng.randrange(4), rng.randrange(16)) for k in range(0, 2049, 1)]
     bad = False
-    for (ln, fr, co) in ptdps:
-        for word in (0, 1):
+    for i, (ln, fr, co) in enumerate(ptdps):
+        for word in ((0, 1) if i < base else (1,)):
             for e in PAT3:
                 args = {"len": ln, "fragment": fr, "content": co, "e1": e if word == 0 else 0, "e2": e if word == 1 else 0}
                 n += 1
